@@ -1257,7 +1257,18 @@ impl World {
                 let mut active: Vec<((String, [u8; 4]), i32, bool, bool, u8, Option<u64>, i32)> = s.active_requests.iter().map(|a| (pa(&a.addr), idclass(&a.id), a.handshake_sent, a.initiating_session, a.retries, a.remaining_responses, rank(a.remaining, age))).collect();
                 active.sort();
                 let pending: Vec<((String, [u8; 4]), Vec<i32>)> = s.pending_requests.iter().map(|(a, ids)| (pa(a), ids.iter().map(|(id, _)| idclass(id)).collect())).collect();
-                let challenges: Vec<((String, [u8; 4]), bool, i32)> = s.challenges.iter().map(|c| (pa(&c.addr), c.remote_enr_seq.is_some(), rank(c.remaining, age))).collect();
+                // absolute time is abstracted to the rank order of deadlines, except for what that would
+                // hide: a challenge whose deadline now lies beyond (first seen + lifetime) was refreshed
+                let now = Instant::now();
+                let challenges: Vec<((String, [u8; 4]), bool, i32, bool)> = s
+                    .challenges
+                    .iter()
+                    .map(|c| {
+                        let seen = self.challenge_seen.get(&c.challenge_data).copied().unwrap_or(now);
+                        let extended = c.remaining.map(|r| now.saturating_duration_since(seen) + r.saturating_sub(age) > REQUEST_TIMEOUT + Duration::from_millis(50)).unwrap_or(false);
+                        (pa(&c.addr), c.remote_enr_seq.is_some(), rank(c.remaining, age), extended)
+                    })
+                    .collect();
                 let ex: Vec<(String, usize)> = n.wire.exemptions().iter().map(|(a, c)| (peer(a), *c)).collect();
                 let ways: Vec<(String, [u8; 4])> = n.way_queries.iter().map(|w| pa(&w.0)).collect();
                 let inbound: Vec<((String, [u8; 4]), i32)> = n.inbound.iter().map(|(a, r)| (pa(a), idclass(&r.id.0))).collect();
@@ -1294,6 +1305,11 @@ pub async fn run_history(cfg: &HCfg, monitors: Monitors, hist: &[Ev], complete: 
     run_history_with(cfg, monitors, hist, complete, &NoDriver).await
 }
 
+thread_local! {
+    /// Set by the regression replayer: a recorded event that is not enabled ends the replay there.
+    pub static LENIENT_REPLAY: std::cell::Cell<bool> = const { std::cell::Cell::new(false) };
+}
+
 pub fn enabled_with(w: &World, driver: &dyn Driver) -> Vec<(Ev, u32)> {
     let mut e = w.enabled();
     for x in driver.ext_enabled(w) {
@@ -1316,6 +1332,10 @@ pub async fn run_history_with(cfg: &HCfg, monitors: Monitors, hist: &[Ev], compl
         }
         // replay guard: the event must be enabled in the state reached
         if !enabled_with(&w, driver).iter().any(|(e, _)| e == ev) {
+            if LENIENT_REPLAY.with(|l| l.get()) {
+                // regression replays: on a repaired tree the recorded path may no longer exist
+                break;
+            }
             mc::machinery(&format!("replay divergence: {:?} not enabled after {:?}", ev, &hist[..i]));
         }
         let obs = w.step(ev, driver).await;
@@ -1427,7 +1447,7 @@ pub async fn replay_verbose(cfg: &HCfg, monitors: Monitors, hist: &[Ev], driver:
         }
         for i in 0..w.nodes.len() {
             if let Some(s) = w.snap(i) {
-                println!("   N{i}: sessions {} active {:?} pending {:?} challenges {} exemptions {:?}", s.sessions.len(), s.active_requests.iter().map(|a| (w.id_name(&a.id), a.handshake_sent, a.retries, a.remaining)).collect::<Vec<_>>(), s.pending_requests.iter().map(|(_, v)| v.len()).collect::<Vec<_>>(), s.challenges.len(), w.nodes[i].wire.exemptions());
+                println!("   N{i}: sessions {} active {:?} pending {:?} challenges {:?} exemptions {:?}", s.sessions.len(), s.active_requests.iter().map(|a| (w.id_name(&a.id), a.handshake_sent, a.retries, a.remaining)).collect::<Vec<_>>(), s.pending_requests.iter().map(|(_, v)| v.len()).collect::<Vec<_>>(), s.challenges.iter().map(|c| c.remaining.map(|r| r.saturating_sub(s.published.elapsed()))).collect::<Vec<_>>(), w.nodes[i].wire.exemptions());
             }
         }
     };
